@@ -1105,7 +1105,17 @@ func (c *EvalCtx) call(e *ECall) Value {
 		r.Hi = big.NewInt(255)
 		return r
 	case "seqof":
-		a, o, l, ok := c.arrOf(c.eval(arg(0)))
+		v0 := c.eval(arg(0))
+		if sv, isStr := v0.(StrV); isStr && len(sv.Cat) >= 2 {
+			// a string built by concatenation (s + t): its byte sequence is the concatenation
+			// of the operands' sequences, by construction (strConcat)
+			t := seqOf(sv.Cat[len(sv.Cat)-1].Arr, sv.Cat[len(sv.Cat)-1].Off, sv.Cat[len(sv.Cat)-1].Len)
+			for k := len(sv.Cat) - 2; k >= 0; k-- {
+				t = App("tq_cat", SSeq, seqOf(sv.Cat[k].Arr, sv.Cat[k].Off, sv.Cat[k].Len), t)
+			}
+			return t
+		}
+		a, o, l, ok := c.arrOf(v0)
 		if !ok {
 			return c.fail("seqof: not bytes")
 		}
